@@ -324,6 +324,11 @@ pub struct FaultDb<'a> {
     pub panic_at: Cell<Option<u64>>,
     /// panic with BUDGET_PAYLOAD when `calls` exceeds this value
     pub budget: Cell<u64>,
+    /// wall-clock guard per solve (armed by `arm`); exceeding it unwinds like the callback budget. It only ever makes
+    /// a solve "not judged" (or, in C09, a candidate that is confirmed by the callback count), never a verdict alone.
+    pub time_limit: Cell<std::time::Duration>,
+    pub deadline: Cell<Option<std::time::Instant>>,
+    pub timed_out: Cell<bool>,
     /// the solve posed a coinductive/auto trait subgoal with non-ground arguments
     pub nonground_coinductive: Cell<bool>,
     pub hist: RefCell<BTreeMap<&'static str, u64>>,
@@ -369,6 +374,9 @@ impl<'a> FaultDb<'a> {
             count_interner: false,
             panic_at: Cell::new(None),
             budget: Cell::new(DEFAULT_BUDGET),
+            time_limit: Cell::new(std::time::Duration::from_secs(5)),
+            deadline: Cell::new(None),
+            timed_out: Cell::new(false),
             nonground_coinductive: Cell::new(false),
             hist: RefCell::new(BTreeMap::new()),
             keep_hist: false,
@@ -386,9 +394,23 @@ impl<'a> FaultDb<'a> {
         }
         self.nonground_coinductive.set(false);
     }
+    /// Start the wall-clock guard for one solve.
+    pub fn arm(&self) {
+        self.timed_out.set(false);
+        self.deadline.set(Some(std::time::Instant::now() + self.time_limit.get()));
+    }
     fn tick(&self, what: &'static str) {
         let n = self.calls.get();
         self.calls.set(n + 1);
+        if n % 64 == 63 {
+            if let Some(d) = self.deadline.get() {
+                if std::time::Instant::now() > d {
+                    self.deadline.set(None);
+                    self.timed_out.set(true);
+                    std::panic::panic_any(BUDGET_PAYLOAD.to_string());
+                }
+            }
+        }
         if self.keep_hist {
             *self.hist.borrow_mut().entry(what).or_insert(0) += 1;
         }
@@ -660,6 +682,7 @@ pub fn last_panic_loc() -> String {
 }
 
 pub fn solve(solver: &mut dyn chalk_solve::Solver<I>, db: &FaultDb<'_>, goal: &UGoal) -> Outcome {
+    db.arm();
     match catch_unwind(AssertUnwindSafe(|| solver.solve(db, goal))) {
         Ok(a) => Outcome::Answer(a),
         Err(e) => classify_unwind(e),
@@ -667,6 +690,7 @@ pub fn solve(solver: &mut dyn chalk_solve::Solver<I>, db: &FaultDb<'_>, goal: &U
 }
 
 pub fn solve_limited(solver: &mut dyn chalk_solve::Solver<I>, db: &FaultDb<'_>, goal: &UGoal, f: &dyn Fn() -> bool) -> Outcome {
+    db.arm();
     match catch_unwind(AssertUnwindSafe(|| solver.solve_limited(db, goal, f))) {
         Ok(a) => Outcome::Answer(a),
         Err(e) => classify_unwind(e),
